@@ -4,6 +4,8 @@ import (
 	"bytes"
 	"encoding/json"
 	"fmt"
+	"maps"
+	"slices"
 	"strings"
 
 	"github.com/cedar-policy/cedar-go/internal/consts"
@@ -138,7 +140,9 @@ func (j arrayJSON) ToNode() (ast.Node, error) {
 
 func (j recordJSON) ToNode() (ast.Node, error) {
 	var nodes ast.Pairs
-	for k, v := range j {
+	// JSON objects are unordered; decode in key order so that the same document always yields the same AST
+	for _, k := range slices.Sorted(maps.Keys(j)) {
+		v := j[k]
 		if v == nil {
 			return ast.Node{}, fmt.Errorf("error in record: missing expression for key %q", k)
 		}
@@ -306,8 +310,9 @@ func (p *Policy) UnmarshalJSON(b []byte) error {
 	default:
 		return fmt.Errorf("unknown effect: %v", j.Effect)
 	}
-	for k, v := range j.Annotations {
-		p.unwrap().Annotate(types.Ident(k), types.String(v))
+	// JSON objects are unordered; decode in key order so that the same document always yields the same AST
+	for _, k := range slices.Sorted(maps.Keys(j.Annotations)) {
+		p.unwrap().Annotate(types.Ident(k), types.String(j.Annotations[k]))
 	}
 	var err error
 	p.Principal, err = j.Principal.ToPrincipalResourceNode()
